@@ -169,6 +169,14 @@ def observe_bundle(G):
     if ids:
         G.interactions_per_snapshots(ids[0])
         G.interactions_per_snapshots(ids[-1] + 3)
+        # instants at which nothing is present: before the first id, inside gaps, after the last id
+        idle = [ids[0] - 1, ids[-1] + 1] + [a + 1 for a, b in zip(ids, ids[1:]) if b - a > 1][:4]
+        for t in idle:
+            G.size(t)
+            G.number_of_interactions(t=t)
+            G.number_of_nodes(t)
+            G.interactions(t=t)
+            G.degree(t=t)
         G.time_slice(ids[0])
         G.time_slice(ids[0], ids[-1])
         G.time_slice(ids[-1], ids[-1] + 1)
